@@ -187,6 +187,13 @@ func main() {
 				BasePolicy: &cpb.Policy{MinimumVersion: "0.0", Policy: prodPolicy}})
 			return e == nil, true, errStr(e)
 		}},
+		{"SevValidate(opts.Endorsement)", func(t *table, m []byte, n uint32) (bool, bool, string) {
+			// the endorsement handed over out of band; the attestation's certificate table has no copy
+			e := gcetcbendorsement.SevValidate(ctx, att.Snp(m, nil), &gcetcbendorsement.SevValidateOptions{
+				Endorsement: t.end, RootsOfTrust: roots(), Now: now, ExpectedLaunchVmsas: n,
+				BasePolicy: &cpb.Policy{MinimumVersion: "0.0", Policy: prodPolicy}})
+			return e == nil, true, errStr(e)
+		}},
 		{"SevPolicy+compare", func(t *table, m []byte, n uint32) (bool, bool, string) {
 			// A relying party that derives the policy and compares the policy measurement itself.
 			p, e := gcetcbendorsement.SevPolicy(ctx, t.end, &gcetcbendorsement.SevPolicyOptions{LaunchVmsas: n, AllowUnspecifiedVmsas: false})
